@@ -223,3 +223,89 @@ def enclosing_try_handlers(node: ast.AST, fn: ast.AST) -> List[ast.ExceptHandler
 def handler_names(h: ast.ExceptHandler) -> Optional[List[str]]:
     from .cfg import _handler_types
     return _handler_types(h.type)
+
+
+# -------------------------------------------------------------------- SIGN
+
+SIGNS = ("neg", "zero", "pos", "nan")
+
+
+def _sign_truth(atom: tuple, param_key: str, s: str) -> Optional[bool]:
+    """Truth of a relational atom `c*param OP 0` for param of sign s."""
+    if atom[0] != "rel":
+        return None
+    p: Poly = atom[4]
+    if len(p.t) != 1:
+        return None
+    (m, c), = p.t.items()
+    if m != ((param_key, 1),):
+        return None
+    if s == "nan":
+        return atom[3] if atom[1] in ("<", "<=") else (atom[1] == "!=")
+    v = {"neg": -1, "zero": 0, "pos": 1}[s] * (1 if c > 0 else -1)
+    op = atom[1]
+    return {"<": v < 0, "<=": v <= 0, "==": v == 0, "!=": v != 0}[op]
+
+
+def _sign_eval(c: tuple, param_key: str, s: str) -> Optional[bool]:
+    if c[0] == "and":
+        vals = [_sign_eval(k, param_key, s) for k in c[1]]
+        if any(v is False for v in vals):
+            return False
+        return None if any(v is None for v in vals) else True
+    if c[0] == "or":
+        vals = [_sign_eval(k, param_key, s) for k in c[1]]
+        if any(v is True for v in vals):
+            return True
+        return None if any(v is None for v in vals) else False
+    return _sign_truth(c, param_key, s)
+
+
+def sign_table_expr(sym, expr: ast.AST, param_key: str, at=None) -> Dict[str, str]:
+    """For an expression made of conditional expressions on the sign of one
+    value: sign -> canonical result."""
+    out = {}
+    for s in SIGNS:
+        e = expr
+        while isinstance(e, ast.IfExp):
+            c = sym.cmp(e.test, at)
+            v = _sign_eval(c, param_key, s)
+            if v is None:
+                raise AnalysisError(f"condition {cmp_key(c)} is not a sign test of {param_key}")
+            e = e.body if v else e.orelse
+        out[s] = sym.canon(e, at)
+    return out
+
+
+def sign_table_func(fa: FuncAnalysis, param: str) -> Dict[str, str]:
+    """Evaluate the branch structure of a function whose parameter is only
+    compared with zero: sign -> canonical returned expression | 'raise'."""
+    out = {}
+    for s in SIGNS:
+        out[s] = _sign_walk(fa, fa.f.body_without_docstring(), param, s)
+        if out[s] is None:
+            out[s] = "fallthrough"
+    return out
+
+
+def _sign_walk(fa: FuncAnalysis, stmts, param: str, s: str) -> Optional[str]:
+    for st in stmts:
+        if isinstance(st, ast.Return):
+            if isinstance(st.value, ast.IfExp):
+                return sign_table_expr(fa.sym, st.value, param)[s]
+            return fa.sym.canon(st.value) if st.value is not None else "None"
+        if isinstance(st, ast.Raise):
+            return "raise"
+        if isinstance(st, ast.If):
+            c = fa.sym.cmp(st.test)
+            v = _sign_eval(c, param, s)
+            if v is None:
+                raise AnalysisError(f"{fa.f.short}: condition {cmp_key(c)} is not a sign test of {param}")
+            r = _sign_walk(fa, st.body if v else st.orelse, param, s)
+            if r is not None:
+                return r
+            continue
+        if isinstance(st, (ast.Expr, ast.Pass)):
+            continue
+        raise AnalysisError(f"{fa.f.short}: unsupported statement in sign-only function: {ast.unparse(st)[:60]}")
+    return None
